@@ -34,6 +34,10 @@ impl Scripted {
         match self.script.get(self.pos - 1).map(|s| s.as_str()) {
             Some("S") => ParseAction::Stop,
             Some("E") => ParseAction::Error(Box::new(TokenError(self.pos))),
+            // the consumer's own error value may be of ANY type, e.g. one of the library's own
+            Some("F") => ParseAction::Error(Box::new(ParseState::Complete)),
+            Some("G") => ParseAction::Error(Box::new(dr::Error::NestedFunction)),
+            Some("H") => ParseAction::Error(Box::new(ParseState::ConsumerStopRequested)),
             _ => ParseAction::Continue,
         }
     }
@@ -57,6 +61,24 @@ impl Consumer for Scripted {
         self.insts.push(inst);
         self.answer()
     }
+}
+
+/// like j_state, but a ConsumerError is identified against the answer the scripted consumer gave:
+/// token = position of that answer iff the returned boxed error is the very value it handed out
+pub fn j_state_scripted(r: &Result<(), ParseState>, c: &Scripted) -> Value {
+    if let Err(ParseState::ConsumerError(e)) = r {
+        let pos = c.pos; // the last callback answered
+        let given = c.script.get(pos.wrapping_sub(1)).map(|s| s.as_str()).unwrap_or("");
+        let same = match given {
+            "E" => e.downcast_ref::<TokenError>().map(|t| t.0 == pos).unwrap_or(false),
+            "F" => matches!(e.downcast_ref::<ParseState>(), Some(ParseState::Complete)),
+            "H" => matches!(e.downcast_ref::<ParseState>(), Some(ParseState::ConsumerStopRequested)),
+            "G" => matches!(e.downcast_ref::<dr::Error>(), Some(dr::Error::NestedFunction)),
+            _ => false,
+        };
+        return json!(["Err", "ConsumerError", if same { pos as i64 } else { -1 }]);
+    }
+    j_state(r)
 }
 
 pub fn j_state(r: &Result<(), ParseState>) -> Value {
@@ -108,7 +130,7 @@ pub fn parse_event(ws: &[u32], tail: &[u8], script: &[String], use_words_api: bo
         catch(|| binary::parse_bytes(&bytes, &mut c))
     };
     let result = match &res {
-        Ok(r) => j_state(r),
+        Ok(r) => j_state_scripted(r, &c),
         Err(p) => jpanic(p),
     };
     json!({"ev": "parse", "tag": tag, "api": if use_words_api && tail.is_empty() { "words" } else { "bytes" },
@@ -365,7 +387,7 @@ fn random_script(rng: &mut Rng, callbacks: usize) -> Vec<String> {
     if rng.chance(3, 4) { return vec![]; }
     let k = rng.below(callbacks + 2);
     let mut s: Vec<String> = (0..k).map(|_| "C".to_string()).collect();
-    s.push(if rng.chance(1, 2) { "S".into() } else { "E".into() });
+    s.push(rng.pick(&["S", "S", "E", "E", "F", "G", "H"]).to_string());
     // answers after the first non-continue one must never be consulted; put noise there
     for _ in 0..rng.below(3) { s.push(rng.pick(&["C", "S", "E"]).to_string()); }
     s
@@ -413,7 +435,7 @@ fn suite_c14(g: &Gram, out: &mut Out, rng: &mut Rng, n_modules: usize) {
             let callbacks = starts.len() + 3;
             out.ev(parse_event(&mw, &tail, &[], false, what));
             for k in 0..callbacks {
-                for a in ["S", "E"] {
+                for a in ["S", "E", "F", "G", "H"] {
                     let mut s: Vec<String> = (0..k).map(|_| "C".to_string()).collect();
                     s.push(a.to_string());
                     s.push(rng.pick(&["C", "S", "E"]).to_string());
@@ -511,8 +533,9 @@ fn c14_behaviour(g: &Gram, out: &mut Out, rng: &mut Rng, b: &Value, reps: usize)
     let ops: Vec<u32> = g.insts.keys().cloned().collect();
     let n = b["n"].as_u64().unwrap() as usize;
     let fault = b["fault"].as_str().unwrap();
-    let script: Vec<String> = b["answers"].as_array().unwrap().iter().map(|a| a.as_str().unwrap().to_string()).collect();
-    for _ in 0..reps {
+    let script0: Vec<String> = b["answers"].as_array().unwrap().iter().map(|a| a.as_str().unwrap().to_string()).collect();
+    for rep in 0..reps {
+        let script: Vec<String> = script0.iter().map(|a| if a == "E" { ["E", "F", "G", "H"][rep % 4].to_string() } else { a.clone() }).collect();
         let mut ctx = Ctx::new();
         let mut ws: Vec<u32> = HEADER.to_vec();
         let mut emitted = 0;
